@@ -273,3 +273,35 @@ let run_cachedseq parts =
   end
 
 let () = register "cachedseq" run_cachedseq
+
+(* refusalspec (C15 / C09 / C03): the responses of a client that runs into the limiter.  Fields: cfg, l, qs=<hex>;.., and the
+   implementation's r<i>=<st>:<hex>.  A REFUSED response must be, octet for octet, what the model's [refuse] writes for that
+   query (header fix-up, AT MOST ONE question echoed, no records, the stream frame prefix stripped by the harness); any
+   other response must satisfy [spec_response] as an ordinary answer; on the DoH listeners a refusal is status 503. *)
+let run_refusalspec parts =
+  let f = fields parts in
+  let c = parse_cfg (fld f "cfg") in
+  let l0 = List.hd (String.split_on_char '-' (fld f "l")) in
+  let lk = listener_of l0 in
+  let qs = split ';' (fld f "qs") in
+  let verdicts = List.mapi (fun i qh ->
+      let r = fld f (Printf.sprintf "r%d" (i + 1)) in
+      let (st, hex) = (match String.index_opt r ':' with
+          | Some j -> (String.sub r 0 j, String.sub r (j + 1) (String.length r - j - 1)) | None -> (r, "-")) in
+      match unpack_msg (bytes_of_hex qh) with
+      | Ok m ->
+        if st = "http-503" then "ok"
+        else if st <> "ok" || hex = "-" then "FAIL:c03-no-response"
+        else
+          let b = bytes_of_hex hex in
+          let is_refused = (match unpack_msg b with Ok rm -> int_of_n rm.m_hdr.h_rcode = 5 | _ -> false) in
+          if is_refused then
+            let want = (match refuse lk m with x :: _ -> strip_frame lk x | [] -> []) in
+            if want = b then "ok" else "FAIL:c15-refusal-form"
+          else verdict_str (spec_response (matches_of c) c.rules lk m false b)
+      | _ -> "ok") qs in
+  match List.filter (fun v -> v <> "ok") verdicts with
+  | [] -> "spec=ok"
+  | v :: _ -> "spec=" ^ v
+
+let () = register "refusalspec" run_refusalspec
